@@ -22,6 +22,7 @@ import TracingModel.Core.NonBlockingDriver
 import TracingModel.Core.RollingDriver
 import TracingModel.Core.MacrosDriver
 import TracingModel.Core.InstrumentDriver
+import TracingModel.Core.LogBridgeDriver
 
 open TM TM.Wire
 
@@ -71,6 +72,9 @@ def dispatch (prop mode : String) : Option (List String → String) :=
   | "C09", "modelfilt" => some FilteringDriver.model
   | "C09", "specfilt" => some FilteringDriver.spec
   | "C08", "model" => some DirectiveDriver.model2
+  | "C18", "model" => some LogBridgeDriver.modelBridge
+  | "C18", "modelfeat" => some LogBridgeDriver.modelFeat
+  | "C18", "specfeat" => some LogBridgeDriver.specFeat
   | "C17", "model" => some InstrumentDriver.model
   | "C16", "model" => some RollingDriver.model
   | "C15", "model" => some NonBlockingDriver.model
